@@ -246,9 +246,17 @@ func (rw *rewriter) file(f *ast.File) {
 		if p, t, m := rw.methodOf(c); p == "golang.org/x/sync/errgroup" && t == "Group" && (m == "Go" || m == "TryGo") {
 			rw.refuse(c, "errgroup goroutines are not under the simulator's control")
 		}
-		if p, name := rw.funcOf(c); (p == "time" && (name == "AfterFunc" || name == "NewTimer" || name == "NewTicker" || name == "Tick")) ||
-			(p == "context" && name == "AfterFunc") {
+		if p, name := rw.funcOf(c); p == "time" && (name == "NewTimer" || name == "NewTicker" || name == "Tick") {
 			rw.refuse(c, p+"."+name+" is not supported by the simulator")
+		}
+		// callbacks run by the runtime in goroutines of their own are adopted by
+		// the simulator (they park before running the callback)
+		if p, name := rw.funcOf(c); p == "context" && name == "AfterFunc" && len(c.Args) == 2 {
+			c.Fun = rt("ContextAfterFunc")
+			c.Args = append([]ast.Expr{rw.site(c, "afterfunc")}, c.Args...)
+		} else if p == "time" && name == "AfterFunc" && len(c.Args) == 2 {
+			c.Fun = rt("TimeAfterFunc")
+			c.Args = append([]ast.Expr{rw.site(c, "afterfunc")}, c.Args...)
 		}
 		// timers the library creates itself are registered with the simulator so
 		// that the fake clock is advanced to them when nothing else can run
